@@ -728,6 +728,158 @@ theorem sincosd_reduction_odd (sx : Bool) (mx : ℕ) (ex : ℤ) :
   rw [hq']
   exact quadSwitch_neg (fun a => by cases a <;> simp [Neg.neg, F64.neg]) _ s c
 
+/-- a finite number with non-zero value carries the sign of its value -/
+theorem signbit_fin_iff (s : Bool) (m : ℕ) (e : ℤ) (h : (F64.fin s m e).val ≠ 0) : s = true ↔ (F64.fin s m e).val < 0 := by
+  rw [F64.val_fin] at h ⊢
+  have hp := Dy.two_zpow_pos e
+  have hm : (0:ℚ) < m := by
+    rcases Nat.eq_zero_or_pos m with h0 | h0
+    · exfalso; apply h; rw [h0]; simp
+    · exact_mod_cast h0
+  cases s
+  · simp only [Bool.false_eq_true, if_false, false_iff, not_lt]; positivity
+  · simp only [if_true, true_iff]; nlinarith
+
+/-- adding `+0` to a representable number changes neither its value nor (when it is non-zero) its sign -/
+theorem add_zero_same (z : F64) (h : F64.IsRep z) (hb : |z.val| ≤ (2:ℚ) ^ (1000:ℤ)) :
+    F64.IsRep (z + 0) ∧ (z + 0).val = z.val ∧ (z.val ≠ 0 → (z + 0).signbit = z.signbit) := by
+  obtain ⟨f, r, _⟩ := F64.add_rn z 0 h.1 rfl 1000 (by norm_num) (by norm_num) (by rw [F64.val_zero, add_zero]; exact hb)
+  rw [F64.val_zero, add_zero] at r
+  have hv : (z + 0).val = z.val := h.2.rn_eq r
+  refine ⟨⟨f, by rw [hv]; exact h.2⟩, hv, fun hnz => ?_⟩
+  obtain ⟨s1, m1, e1, h1⟩ := F64.exists_fin_of_isFinite (z + 0) f
+  obtain ⟨s2, m2, e2, h2⟩ := F64.exists_fin_of_isFinite z h.1
+  have a1 := signbit_fin_iff s1 m1 e1 (by rw [← h1, hv]; exact hnz)
+  have a2 := signbit_fin_iff s2 m2 e2 (by rw [← h2]; exact hnz)
+  rw [← h1, hv] at a1
+  rw [← h2] at a2
+  rw [h1, h2]
+  show s1 = s2
+  rw [Bool.eq_iff_iff]; exact a1.trans a2.symm
+
+/--
+**`sincosde(x, 0)` takes the same path as `sincosd(x)` (partial).**  Full statement: for every finite `x` whose reduced
+angle `d₀ = remquo(x, 90)` has `|d₀| ≥ 1/16`, `sincosdeM k x 0 = sincosdM k x`.  Proved here: the reduced angle of `sincosde`
+(`AngRound(d₀ + 0)`) is *structurally* `d₀ + 0`, a finite number with the same value and sign as `d₀`, it takes the same
+special-value branch, the quotient is the same term, and the zero-sign source `x + 0` has the value and sign of `x`.  Not proved:
+that the results are the same *terms* — `d₀ + 0` and `d₀` may be different unnormalised representations `m·2^e` of the same
+number, so this needs kernels that respect value equality (true of libm) and a congruence lemma through `sincosCore`.
+-/
+theorem sincosde_zero_correction_partial (sx : Bool) (mx : ℕ) (ex : ℤ) (hx : F64.IsRep (F64.fin sx mx ex))
+    (hxb : |(F64.fin sx mx ex).val| ≤ (2:ℚ) ^ (1000:ℤ))
+    (hd : 1 / 16 ≤ |(F64.remainder (F64.fin sx mx ex) qd).val|) :
+    sincosdeArg (F64.fin sx mx ex) 0 = F64.remainder (F64.fin sx mx ex) qd + 0 ∧
+    (sincosdeArg (F64.fin sx mx ex) 0).val = (F64.remainder (F64.fin sx mx ex) qd).val ∧
+    (sincosdeArg (F64.fin sx mx ex) 0).signbit = (F64.remainder (F64.fin sx mx ex) qd).signbit ∧
+    sincosBranch (sincosdeArg (F64.fin sx mx ex) 0) = sincosBranch (F64.remainder (F64.fin sx mx ex) qd) ∧
+    (F64.fin sx mx ex + 0).val = (F64.fin sx mx ex).val ∧ (F64.fin sx mx ex + 0).signbit = (F64.fin sx mx ex).signbit := by
+  have h90 : F64.IsRep (F64.fin false 90 0) := GeoVerif.Accum.isRep_of_repB _ (by decide +kernel)
+  obtain ⟨hrrep, hrle, hrhalf⟩ := F64.remainder_rep sx false mx 90 ex 0 (by norm_num) hx h90
+  set d0 := F64.remainder (F64.fin sx mx ex) (F64.fin false 90 0) with hd0
+  have hd' : 1 / 16 ≤ |d0.val| := hd
+  have hd0b : |d0.val| ≤ (2:ℚ) ^ (1000:ℤ) := le_trans hrle hxb
+  have hd0nz : d0.val ≠ 0 := by
+    intro h0; rw [h0, abs_zero] at hd'; norm_num at hd'
+  obtain ⟨zrep, zval, zsign⟩ := add_zero_same d0 hrrep hd0b
+  obtain ⟨s1, m1, e1, h1⟩ := F64.exists_fin_of_isFinite (d0 + 0) zrep.1
+  have hbig : 1 / 16 ≤ |(F64.fin s1 m1 e1).val| := by rw [← h1, zval]; exact hd'
+  have harg : sincosdeArg (F64.fin sx mx ex) 0 = d0 + 0 := by
+    show angRound (d0 + 0) = d0 + 0
+    rw [h1]; exact angRound_big s1 m1 e1 hbig
+  have hxnz : (F64.fin sx mx ex).val ≠ 0 := by
+    intro h0
+    have : |d0.val| ≤ 0 := by rw [h0, abs_zero] at hrle; exact hrle
+    have := abs_nonneg d0.val
+    have : |d0.val| = 0 := le_antisymm ‹|d0.val| ≤ 0› this
+    rw [this] at hd'; norm_num at hd'
+  obtain ⟨_, xval, xsign⟩ := add_zero_same (F64.fin sx mx ex) hx hxb
+  refine ⟨harg, by rw [harg]; exact zval, by rw [harg]; exact zsign hd0nz, ?_, xval, xsign hxnz⟩
+  -- same branch: the branch depends on |value| only
+  rw [harg, h1]
+  obtain ⟨s0, m0, e0, h0⟩ := F64.exists_fin_of_isFinite d0 hrrep.1
+  show sincosBranch (F64.fin s1 m1 e1) = sincosBranch d0
+  rw [h0]
+  have hz1 : F64.IsRep (F64.fin s1 m1 e1) := h1 ▸ zrep
+  have hz0 : F64.IsRep (F64.fin s0 m0 e0) := h0 ▸ hrrep
+  have hv : (F64.fin s1 m1 e1).val = (F64.fin s0 m0 e0).val := by rw [← h1, ← h0]; exact zval
+  have b1 : |(F64.fin s1 m1 e1).val| ≤ (2:ℚ) ^ (1000:ℤ) := by rw [hv, ← h0]; exact hd0b
+  have b0 : |(F64.fin s0 m0 e0).val| ≤ (2:ℚ) ^ (1000:ℤ) := by rw [← h0]; exact hd0b
+  have i2a := eq_two_abs_iff s1 m1 e1 hz1 b1
+  have i2b := eq_two_abs_iff s0 m0 e0 hz0 b0
+  have i3a := eq_three_abs_iff s1 m1 e1 hz1 b1
+  have i3b := eq_three_abs_iff s0 m0 e0 hz0 b0
+  rw [hv] at i2a i3a
+  have e2 : F64.eq ((2 : F64) * F64.abs (F64.fin s1 m1 e1)) qd = F64.eq ((2 : F64) * F64.abs (F64.fin s0 m0 e0)) qd := by
+    rw [Bool.eq_iff_iff]; exact i2a.trans i2b.symm
+  have e3 : F64.eq ((3 : F64) * F64.abs (F64.fin s1 m1 e1)) qd = F64.eq ((3 : F64) * F64.abs (F64.fin s0 m0 e0)) qd := by
+    rw [Bool.eq_iff_iff]; exact i3a.trans i3b.symm
+  unfold sincosBranch
+  rw [e2, e3]
+
+/-- non-vacuity: x = 100 (reduced angle 10°) -/
+example : F64.IsRep (F64.fin false 100 0) ∧ (1:ℚ) / 16 ≤ |(F64.remainder (F64.fin false 100 0) qd).val| := by
+  refine ⟨GeoVerif.Accum.isRep_of_repB _ (by decide +kernel), ?_⟩
+  have h : (F64.remainder (F64.fin false 100 0) qd).toDy.m = 10 ∧ (F64.remainder (F64.fin false 100 0) qd).toDy.e = 0 := by decide +kernel
+  unfold F64.val Dy.val; rw [h.1, h.2]; norm_num
+
+/-- **signed zeros** (the last two lines of `sincosd` / `sincosde`): a zero sine takes the sign of `z` (`x`, resp. `x + t`); a
+representable cosine that is zero comes out as `+0` -/
+theorem sincosFinish_signed_zeros (q : ℤ) (z s c : F64) :
+    (F64.eq (quadSwitch q s c).1 0 = true → (sincosFinish q z (s, c)).1 = copysign (quadSwitch q s c).1 z) ∧
+    (F64.eq (quadSwitch q s c).1 0 = false → (sincosFinish q z (s, c)).1 = (quadSwitch q s c).1) ∧
+    (sincosFinish q z (s, c)).2 = (quadSwitch q s c).2 + 0 ∧
+    (F64.IsRep (quadSwitch q s c).2 → (quadSwitch q s c).2.val = 0 → (sincosFinish q z (s, c)).2 = F64.fin false 0 0) := by
+  unfold sincosFinish
+  refine ⟨fun h => by simp [h], fun h => by simp [h], rfl, fun hr h0 => ?_⟩
+  show (quadSwitch q s c).2 + 0 = _
+  obtain ⟨s1, m1, e1, h1⟩ := F64.exists_fin_of_isFinite _ hr.1
+  rw [h1] at h0 ⊢
+  have hm : m1 = 0 := by
+    rw [F64.val_fin] at h0
+    have hp := Dy.two_zpow_pos e1
+    rcases mul_eq_zero.mp h0 with h | h
+    · cases s1 <;> simp at h <;> exact_mod_cast h
+    · exact absurd h hp.ne'
+  subst hm
+  show F64.rnd (Dy.add (F64.fin s1 0 e1).toDy (0 : F64).toDy) (s1 && false) = _
+  have hd : (Dy.add (F64.fin s1 0 e1).toDy (0 : F64).toDy).m = 0 := by
+    have h00 : (0 : F64).toDy = ⟨0, 0⟩ := rfl
+    have h01 : (F64.fin s1 0 e1).toDy = ⟨0, e1⟩ := by cases s1 <;> simp [F64.toDy]
+    rw [h00, h01]
+    unfold Dy.add
+    by_cases hle : e1 ≤ 0 <;> simp [hle, Dy.shl]
+  unfold F64.rnd
+  have hr0 : Dy.round53 (Dy.add (F64.fin s1 0 e1).toDy (0 : F64).toDy) = ⟨0, 0⟩ := Dy.roundTo_zero 53 (-1074) _ hd
+  simp [hr0, hd]
+
+/-- **`atan2d` is exact on the axes** (model, every finite argument): with a kernel that returns the signed zero for
+`atan2(±0, x' ≥ 0)` (C11 F.10.1.4), `atan2d(±0, x) = ±0` for `x ≥ +0`, `±180` for `x ≤ −0`; `atan2d(y, ±0) = ±90` for `y ≠ 0` -/
+theorem atan2d_axes (k : Kern) (sy sx : Bool) (ey ex : ℤ) (mx my : ℕ) :
+    (k.atan2 (F64.fin sy 0 ey) (F64.fin false mx ex) = F64.fin sy 0 0 →
+      atan2dM k (F64.fin sy 0 ey) (F64.fin sx mx ex) = if sx then F64.fin sy 180 0 else F64.fin sy 0 0) ∧
+    (my ≠ 0 → k.atan2 (F64.fin sx 0 ex) (F64.fin false my ey) = F64.fin sx 0 0 →
+      atan2dM k (F64.fin sy my ey) (F64.fin sx 0 ex) = F64.fin sy 90 0) :=
+  ⟨atan2dM_axis_y0 k sy sx ey mx ex, fun hmy hk => atan2dM_axis_x0 k sy sx ex my ey hmy hk⟩
+
+/-- **`atand(±1) = ±45` exactly** when the kernel returns the correctly rounded `π/4` for `atan2(±1, 1)`: the division by the rounded
+constant `degree` gives exactly 45 -/
+theorem atand_one (k : Kern) (s : Bool) (hk : k.atan2 (F64.fin s 1 0) 1 = F64.copysign (piD / 4) (F64.fin s 1 0)) :
+    (atandM k (F64.fin s 1 0)).val = if s then -45 else 45 := by
+  rw [atandM_one k s hk]; exact val_45 s
+
+/-- **`tand` at odd multiples of 45° is exactly ±1**: whenever the reduced angle takes the `2|d| = 90` branch, for every kernel,
+every quadrant and every sign -/
+theorem tand_special45 (k : Kern) (x : F64) (h : sincosBranch (F64.remainder x qd) = Branch.s45) :
+    (tandM k x).val = 1 ∨ (tandM k x).val = -1 := by
+  rcases tandM_s45 k x h with h1 | h1
+  · left; rw [h1]; exact one52_val
+  · right; rw [h1]
+    show (F64.fin true 4503599627370496 (-52)).val = -1
+    rw [F64.val_fin]; norm_num
+
+/-- non-vacuity: 135° takes the 45° branch -/
+example : sincosBranch (F64.remainder (F64.fin false 135 0) qd) = Branch.s45 := by decide +kernel
+
 end Trig
 
 /-! ## `atan2d`: the octant scheme is correct over ℝ -/
